@@ -35,3 +35,9 @@ func VBindPending(c *UDPConn, addr net.Addr) uint16 {
 
 // VNonce is the nonce the relayed socket would put into its next request.
 func (c *UDPConn) VNonce() []byte { return c.nonce() }
+
+// VLifetime is the allocation lifetime the relayed socket works with (its refresh period is half of it).
+func (c *UDPConn) VLifetime() time.Duration { return c.lifetime() }
+
+// VRefreshInterval is the interval the allocation refresh timer was created with.
+func (c *UDPConn) VRefreshInterval() time.Duration { return c.refreshAllocTimer.interval }
